@@ -38,7 +38,12 @@ MANIFEST = dict(
          "values themselves (for ind, v in zip(s[1:], a[s][1:])) when all sequences start at the same sorted position and run to the end. A function "
          "of the form `if c: <loop-free arm> else: <scan>` is decided as two functions; the loop-free flagged form is decided on terms: run-start mask "
          "M over the sorted values, maximum.reduceat(flag[s], where(M)) per run, candidates flag[s] == runmax[cumsum(M)-1], the first candidate of "
-         "every run, mapped through the sorter, on paths that restrict the flag kind to types without NaN.",
+         "every run, mapped through the sorter, on paths that restrict the flag kind to types without NaN. "
+         "No test of a scan may use the truth value of an element or of the running value (0, False and '' are values); a running value may start as None "
+         "('nothing seen yet', tested with `is None` beside the value comparison) only when the scan begins at sorted position 0, never as another constant. "
+         "A flagged scan without a flag comparison is accepted only when equal values are visited by decreasing flag: o = flag.argsort()[::-1], "
+         "s = o[argsort(arr[o], kind='stable')] (or lexsort) with the first entry of every run kept; a second sort that is not stable, an increasing flag "
+         "order, or a flag array that is never read is a violation; a decreasing order obtained by negating the flags gives no verdict.",
     note="Not decided: completeness for all arrays (numpy.searchsorted/argsort/unique semantics trusted); NaN handling.",
     technique="static analysis: path-wise symbolic execution to normalised terms (match, vectorised unique), index-space typing over "
               "expression descriptors with CFG control dependence (scan loops)",
@@ -2021,6 +2026,7 @@ class Scan:
                         self.defs.setdefault(tt.id, []).append((None, x))
         self._cls = {}
         self._busy = set()
+        self.tiebreaks = {}     # (direction, stable) -> text: composite sorters (value order, ties in flag order) met while typing
 
     def X(self, e):
         return _Fwd(self.sd, 6).visit(copy.deepcopy(e))
@@ -2181,8 +2187,10 @@ class Scan:
                     r = ("count",)
                 elif not augs and all(v[0] in ("lit", "pos") for v in plain) and any(v[0] == "pos" for v in plain):
                     r = ("pos",)
-                elif not augs and all(v[0] in ("val", "inval") for v in plain) and len({v[1] for v in plain}) == 1:
-                    r = ("runval", plain[0][1])
+                elif not augs and any(v[0] in ("val", "inval") for v in plain) and all(v[0] in ("val", "inval", "lit", "konst") for v in plain) \
+                        and len({v[1] for v in plain if v[0] in ("val", "inval")}) == 1:
+                    # a running value; it may start as a constant ("nothing seen yet": None) -- whether that seed is sound is a rule of its own
+                    r = ("runval", [v for v in plain if v[0] in ("val", "inval")][0][1])
                 elif plain and plain[0][0] == "alloc" and all(v[0] == "alloc" or v == ("kept", name) for v in plain) and not augs:
                     r = ("kept", plain[0][1])
             self._cls[name] = r
@@ -2196,9 +2204,11 @@ class Scan:
         if isinstance(e, ast.Constant):
             if isinstance(e.value, int) and not isinstance(e.value, bool):
                 return ("lit", e.value)
-            return ("opaque", repr(e.value))
+            return ("konst", repr(e.value))
         if isinstance(e, ast.UnaryOp) and isinstance(e.op, ast.USub) and isinstance(e.operand, ast.Constant) and isinstance(e.operand.value, int):
             return ("lit", -e.operand.value)
+        if isinstance(e, ast.UnaryOp) and isinstance(e.op, ast.USub) and self.flagp is not None and self.D(e.operand) == ("in", self.flagp):
+            return ("negin", self.flagp)
         if isinstance(e, ast.Name):
             if e.id in self.inputs:
                 return ("in", e.id)
@@ -2235,6 +2245,23 @@ class Scan:
             d0 = self.D(a0) if a0 is not None else None
             if n == "argsort" and d0 is not None and d0 == ("in", self.key):
                 return ("sorter",)
+            if n == "argsort" and d0 is not None and self.flagp is not None:
+                # two-stage orders of the flagged variant: a permutation that orders by flag, then the values gathered through it are sorted
+                kinds = [k.value for k in e.keywords if k.arg == "kind"]
+                stable = len(kinds) == 1 and isinstance(kinds[0], ast.Constant) and kinds[0].value in ("stable", "mergesort")
+                if d0 == ("in", self.flagp):
+                    return ("fperm", "asc")
+                if d0 == ("negin", self.flagp):
+                    return ("fperm", "desc-neg")        # decreasing only where negation reverses the order (not for unsigned / boolean flags)
+                if d0[0] == "fv" and d0[1] == self.key:
+                    return ("vperm", d0[2], stable, norm(e))
+            if n == "lexsort" and _is_np(e) and self.flagp is not None and len(e.args) == 1 and not e.keywords and isinstance(e.args[0], (ast.Tuple, ast.List)) \
+                    and len(e.args[0].elts) == 2 and self.D(e.args[0].elts[1]) == ("in", self.key):
+                # lexsort((secondary, primary)) is a stable sort by the last key with ties in the order of the key before it
+                sec = self.D(e.args[0].elts[0])
+                if sec in (("in", self.flagp), ("negin", self.flagp)):
+                    self.tiebreaks[("asc" if sec[0] == "in" else "desc-neg", True)] = norm(e)
+                    return ("sorter",)
             if n == "sort" and _is_np(e) and d0 == ("in", self.key):
                 return ("sv", self.key)
             if n in _ALLOC and _is_np(e):
@@ -2257,14 +2284,24 @@ class Scan:
             if isinstance(e.slice, ast.Slice):
                 if b[0] in ("kept", "idxarr"):
                     return b
+                sl = e.slice
+                if b[0] == "fperm" and b[1] in ("asc", "desc") and sl.lower is None and sl.upper is None and sl.step is not None \
+                        and self.D(sl.step) == ("lit", -1):
+                    return ("fperm", "desc" if b[1] == "asc" else "asc")       # the reversed order
                 return ("slice-of", b)
             return self.sub(b, self.D(e.slice), e)
         return ("opaque", norm(e))
 
     def sub(self, b, i, e):
+        if b[0] == "fperm" and i[0] == "vperm" and i[1] == b[1]:
+            # o[argsort(a[o])]: sorted by value; equal values stay in the order of o only when the second sort is stable
+            self.tiebreaks[(b[1], i[2])] = i[3]
+            return ("sorter",)
         if b[0] == "in":
             if i == ("sorter",):
                 return ("sv", b[1])
+            if i[0] == "fperm":
+                return ("fv", b[1], i[1])           # an input gathered in flag order
             if i[0] == "idx":
                 return ("val", b[1], i[1])
             if i[0] == "lit":
@@ -2299,7 +2336,7 @@ def _scan_dedup(chk, fi, narr):
         return
     lp = sc.loop
     # the sorter
-    has_sorter = any(sc.D(sc.X(x)) == ("sorter",) for x in walk_no_nested(fn) if isinstance(x, ast.Call) and _cname(x) == "argsort")
+    has_sorter = any(sc.D(sc.X(x)) == ("sorter",) for x in walk_no_nested(fn) if isinstance(x, (ast.Call, ast.Subscript)))
     chk.ob("R06.1", q + "::sorter-found", True if has_sorter else None, fi.where(), "the scan is driven by an argsort of the input")
     if not has_sorter:
         return
@@ -2348,7 +2385,32 @@ def _scan_dedup(chk, fi, narr):
             else:
                 chk.ob("R06.1", key, True, fi.where(x), msg)
     chk.ob("R06.1", q + "::subscripts-typed", True if n_sub >= 3 else None, fi.where(), "%d subscripts of the input / sorted arrays were typed" % n_sub)
+    # no decision may hang on the truth value of an element: 0, 0.0, False and the empty string are values like any other
+    truthy = [(x, d) for x, d in ((x, sc.D(sc.X(x))) for x in _truth_contexts(fn)) if d[0] in ("val", "inval", "runval")]
+    chk.ob("R06.1", q + "::no-element-truth-test", not truthy, fi.where(truthy[0][0]) if truthy else fi.where(),
+           "no test of the scan uses the truth value of an element of the input (zero, False and the empty string are falsy, yet they are values that "
+           "must get exactly one index like any other)%s" % ("" if not truthy else "; `%s` is %s used as a condition: whenever it is falsy the test "
+                                                           "takes the same arm whatever the comparison of the values says" % (
+               norm(truthy[0][0]), {"runval": "the running value of the run", "val": "an element of `%s`" % truthy[0][1][1],
+                                    "inval": "an element of `%s`" % truthy[0][1][1]}[truthy[0][1][0]])))
     _scan_logic(chk, sc, narr)
+
+
+def _truth_contexts(fn):
+    """expressions whose truth value is taken: tests of if / while / conditional expressions / assert, operands of and / or / not, bool(x)"""
+    out = []
+    for x in walk_no_nested(fn):
+        if isinstance(x, (ast.If, ast.While, ast.IfExp, ast.Assert)):
+            out.append(x.test)
+        elif isinstance(x, ast.BoolOp):
+            out.extend(x.values)
+        elif isinstance(x, ast.UnaryOp) and isinstance(x.op, ast.Not):
+            out.append(x.operand)
+        elif isinstance(x, ast.Call) and isinstance(x.func, ast.Name) and x.func.id == "bool" and len(x.args) == 1:
+            out.append(x.args[0])
+        elif isinstance(x, ast.comprehension):
+            out.extend(x.ifs)
+    return [e for e in out if not isinstance(e, (ast.BoolOp, ast.Compare)) and not (isinstance(e, ast.UnaryOp) and isinstance(e.op, ast.Not))]
 
 
 def _kept_stores(sc):
@@ -2417,15 +2479,41 @@ def _scan_logic(chk, sc, narr):
 
     # -- the new-run test ----------------------------------------------------
     runs = []
+
+    def value_change(t):
+        """(reference value, True for `!=`) when t compares the value at the current sorted position with another value of the same input"""
+        if isinstance(t, ast.Compare) and len(t.ops) == 1 and isinstance(t.ops[0], (ast.NotEq, ast.Eq)):
+            a, b = sc.D(t.left), sc.D(t.comparators[0])
+            for me, ref in ((a, b), (b, a)):
+                if me == ("val", key, "cur") and (ref[0] == "runval" and ref[2] == key or ref == ("val", key, ("cur", -1))
+                                                  or (ref[0] in ("val", "inval") and ref[1] == key and ref != me)):
+                    return ref, isinstance(t.ops[0], ast.NotEq)
+        return None
+
+    def beside(t, ref, new):
+        """an operand beside the value comparison that this check can place: the running value tested for 'nothing seen yet' (`val is None` in a
+        disjunction that opens a run, `val is not None` in a conjunction that continues one), or the truth value of an element (which the rule
+        no-element-truth-test reports)"""
+        if isinstance(t, ast.UnaryOp) and isinstance(t.op, ast.Not):
+            return not new and beside(t.operand, ref, True) or sc.D(t.operand)[0] in ("val", "inval", "runval")
+        if isinstance(t, ast.Compare) and len(t.ops) == 1 and isinstance(t.ops[0], ast.Is if new else ast.IsNot):
+            a, b = sc.D(t.left), sc.D(t.comparators[0])
+            return ref[0] == "runval" and {a, b} == {ref, ("konst", "None")}
+        return sc.D(t)[0] in ("val", "inval", "runval")
+
     for x in ast.walk(lp):
         if isinstance(x, ast.If):
             t = sc.X(x.test)
-            if isinstance(t, ast.Compare) and len(t.ops) == 1 and isinstance(t.ops[0], (ast.NotEq, ast.Eq)):
-                a, b = sc.D(t.left), sc.D(t.comparators[0])
-                for me, ref in ((a, b), (b, a)):
-                    if me == ("val", key, "cur") and (ref[0] == "runval" and ref[2] == key or ref == ("val", key, ("cur", -1))
-                                                      or (ref[0] in ("val", "inval") and ref[1] == key and ref != me)):
-                        runs.append((x, ref, "T" if isinstance(t.ops[0], ast.NotEq) else "F"))
+            parts = list(t.values) if isinstance(t, ast.BoolOp) else [t]
+            found = [(p_, value_change(p_)) for p_ in parts]
+            hits = [(p_, vc) for p_, vc in found if vc is not None]
+            if len(hits) != 1:
+                continue
+            ref, new = hits[0][1]
+            # `A or v != val` opens a run, `A and v == val` continues one; any other combination is not a form this check knows
+            if isinstance(t, ast.BoolOp) and not (isinstance(t.op, ast.Or) == new and all(vc is not None or beside(p_, ref, new) for p_, vc in found)):
+                continue
+            runs.append((x, ref, "T" if new else "F"))
     chk.ob("R06.1", q + "::new-run-test", True if len(runs) == 1 else None, fi.where(lp),
            "a new run starts where the value at the current sorted position differs from the running value of the run (found %d such test(s))" % len(runs))
     if len(runs) != 1:
@@ -2438,13 +2526,28 @@ def _scan_logic(chk, sc, narr):
         return {newlab: "new", samelab: "same"}.get(c.get(id(runif)))
 
     # -- the running value is seeded from sorted position 0 and replaced at each new run
+    def seeds_of(var):
+        """the definitions of var outside the loop that can reach it: of straight-line definitions at the top level of the function only the last"""
+        outs = [(v, st) for v, st in sc.defs.get(var, []) if not inloop(st)]
+        if len(outs) > 1 and all(any(st is b for b in fn.body) and st.lineno < lp.lineno for v, st in outs):
+            outs = [max(outs, key=lambda d: d[1].lineno)]
+        return outs
+
     def seed_rule(var, p, what):
-        for v, st in sc.defs.get(var, []):
+        for v, st in seeds_of(var):
             d = sc.D(sc.X(v)) if isinstance(v, ast.AST) else ("opaque",)
-            if not inloop(st):
+            if True:
                 ok = True if d == ("val", p, ("lit", 0)) else (False if d[0] == "inval" or (d[0] == "val" and d[2] != ("lit", 0)) else None)
+                why = ""
+                if d == ("konst", "None") and what == "value":
+                    # 'nothing seen yet': sound when the scan itself visits sorted position 0 (its value differs from None, so it opens the first run)
+                    ok = None if sc.start is None else sc.start == 0
+                    why = "; it starts as None, which stands for 'nothing seen yet' only when the scan begins at sorted position 0 (it begins at %s)" % sc.start
+                elif d[0] in ("lit", "konst"):
+                    ok = False
+                    why = "; it starts as the constant %s, which can itself be an element: the first run is then mistaken for a continuation, or split" % d[1]
                 chk.ob("R06.1", "%s::seed-from-sorted-position-0::%s" % (q, what), ok, fi.where(st),
-                       "the running %s is seeded from sorted position 0 (`%s`)" % (what, norm(sc.X(st))))
+                       "the running %s is seeded from sorted position 0 (`%s`)%s" % (what, norm(sc.X(st)), why))
     if ref[0] in ("val", "inval") and ref != ("val", key, ("cur", -1)):
         chk.ob("R06.1", q + "::running-value-replaced-at-new-run", False, fi.where(runif),
                "at a new run the running value becomes the value at the current sorted position; the scan compares every element with the fixed element `%s`"
@@ -2456,6 +2559,9 @@ def _scan_logic(chk, sc, narr):
         ok = bool(ins) and all(d == ("val", key, "cur") and arm(st) == "new" for d, st in ins)
         chk.ob("R06.1", q + "::running-value-replaced-at-new-run", True if ok else (False if not ins else None), fi.where(runif),
                "at a new run the running value becomes the value at the current sorted position")
+    # the running value starts as None and the scan begins at sorted position 0: the first iteration opens the first run
+    outseeds = [sc.D(sc.X(v)) if isinstance(v, ast.AST) else ("opaque",) for v, st in seeds_of(ref[1])] if ref[0] == "runval" else []
+    sentinel = bool(outseeds) and all(d == ("konst", "None") for d in outseeds) and sc.start == 0
     # -- the larger-flag test (flagged variant) ------------------------------
     flagif = fref = None
     if flagp is not None:
@@ -2470,11 +2576,35 @@ def _scan_logic(chk, sc, narr):
                             larger = isinstance(t.ops[0], (ast.Gt, ast.GtE)) == left
                             fl.append((x, r_, larger))
         ok = True if len(fl) == 1 and fl[0][2] and ctrl(fl[0][0]).get(id(runif)) == samelab else (False if len(fl) == 1 and not fl[0][2] else None)
+        extra = ""
+        if not fl:
+            # no flag comparison in the scan: the flags can only decide through the order in which equal values are visited
+            recs = [v for stl in _kept_stores(sc).values() for slot, v, st in stl if inloop(st)]
+            first_of_run = bool(recs) and all(v in (cur, ("idx", "cur")) for v in recs)
+            reads = [x for x in walk_no_nested(fn) if isinstance(x, ast.Name) and x.id == flagp and isinstance(x.ctx, ast.Load)]
+            if len(sc.tiebreaks) == 1:
+                (direction, stable), txt = next(iter(sc.tiebreaks.items()))
+                if not stable:
+                    ok = False
+                    extra = ("; the scan compares no flags and relies on the visiting order, but `%s` is not a stable sort (no kind='stable' / 'mergesort'): it "
+                             "does not keep elements with equal values in the flag order established before it, so the entry kept for a value need not carry "
+                             "its largest flag" % txt)
+                elif first_of_run and direction == "desc-neg":
+                    extra = ("; the scan keeps the first entry of every run and `%s` visits equal values by increasing negated flag, which is decreasing flag "
+                             "only for element types whose negation reverses the order (not unsigned integers or booleans): not decided" % txt)
+                elif first_of_run:
+                    ok = direction == "desc"
+                    extra = "; the scan keeps the first entry of every run and `%s` visits equal values by %s flag" % (
+                        txt, "decreasing" if ok else "increasing (the smallest flag is kept)")
+            elif not reads:
+                ok = False
+                extra = "; the flag array `%s` is never read" % flagp
         chk.ob("R06.1", q + "::largest-flag-wins", ok, fi.where(fl[0][0]) if fl else fi.where(lp),
-               "within a run the kept position is replaced only when the flag at the current position is larger than the largest flag seen in the run")
+               "within a run the kept position is replaced only when the flag at the current position is larger than the largest flag seen in the run" + extra)
         if ok is not True:
             return
-        flagif, fref = fl[0][0], fl[0][1]
+        if fl:
+            flagif, fref = fl[0][0], fl[0][1]
 
     def where_arm(st):
         a = arm(st)
@@ -2527,15 +2657,19 @@ def _scan_logic(chk, sc, narr):
                 c = slot_new[1]
                 incs = [st for v, st in sc.defs.get(c, []) if isinstance(v, tuple) and inloop(st)]
                 init = [sc.D(sc.X(v)) for v, st in sc.defs.get(c, []) if isinstance(v, ast.AST)]
-                if len(incs) == 1 and where_arm(incs[0]) == "new" and incs[0].lineno < news[0][2].lineno and init == [("lit", 0)]:
-                    ok = True
+                if len(incs) == 1 and where_arm(incs[0]) == "new" and init == [("lit", 0)] and (incs[0].lineno < news[0][2].lineno) != sentinel:
+                    ok = True           # seed in slot 0 before the loop: advance, then store; first run recorded by the scan itself: store, then advance
                 elif not incs:
                     ok = False          # the slot counter never advances: every run overwrites the same slot
         chk.ob("R06.1", q + "::new-run-takes-a-fresh-slot", ok, fi.where(runif), "each new run is recorded in the next free slot (slot 0 belongs to the seed)")
         # slot 0
         seeds = [(slot, v, st) for slot, v, st in pre_st if slot == ("lit", 0) or slot == "append"]
         first = None
-        if seeds:
+        if sentinel:
+            # the first iteration (sorted position 0) takes the new-run arm: what it records is the first entry
+            if not seeds and len(news) == 1 and not (alloc and len(alloc[0][0]) == 3 and alloc[0][0][2]):
+                first = {("idx", "cur"): ("idx", ("lit", 0)), cur: ("lit", 0)}.get(news[0][1])
+        elif seeds:
             first = seeds[0][1]
         elif alloc and len(alloc[0][0]) == 3 and alloc[0][0][2]:
             first = alloc[0][0][2][0]
